@@ -197,7 +197,7 @@ func ruleBgCtx(c *Ctx, r *R, names ...string) {
 		if ret != nil && bi.cancel.Referrers() != nil {
 			for _, ref := range *bi.cancel.Referrers() {
 				if st, ok := ref.(*ssa.Store); ok {
-					if fa, ok := st.Addr.(*ssa.FieldAddr); ok && fa.X == ssa.Value(ret) {
+					if fa, ok := st.Addr.(*ssa.FieldAddr); ok && fieldBaseIs(fa, ret) {
 						stored = fieldName(fa.X.Type(), fa.Field)
 					}
 				}
@@ -210,7 +210,7 @@ func ruleBgCtx(c *Ctx, r *R, names ...string) {
 							if mc, ok := r2.(*ssa.MakeClosure); ok && mc.Referrers() != nil {
 								for _, r3 := range *mc.Referrers() {
 									if st2, ok := r3.(*ssa.Store); ok && st2.Val == ssa.Value(mc) {
-										if fa, ok := st2.Addr.(*ssa.FieldAddr); ok && fa.X == ssa.Value(ret) {
+										if fa, ok := st2.Addr.(*ssa.FieldAddr); ok && fieldBaseIs(fa, ret) {
 											if lit, _ := mc.Fn.(*ssa.Function); lit != nil {
 												stored = fieldName(fa.X.Type(), fa.Field)
 												storedLit = lit
@@ -222,14 +222,14 @@ func ruleBgCtx(c *Ctx, r *R, names ...string) {
 							if ld, ok := r2.(*ssa.UnOp); ok && ld.Referrers() != nil {
 								for _, r3 := range *ld.Referrers() {
 									if st2, ok := r3.(*ssa.Store); ok {
-										if fa, ok := st2.Addr.(*ssa.FieldAddr); ok && fa.X == ssa.Value(ret) {
+										if fa, ok := st2.Addr.(*ssa.FieldAddr); ok && fieldBaseIs(fa, ret) {
 											stored = fieldName(fa.X.Type(), fa.Field)
 										}
 									}
 									if ct, ok := r3.(*ssa.ChangeType); ok && ct.Referrers() != nil {
 										for _, r4 := range *ct.Referrers() {
 											if st2, ok := r4.(*ssa.Store); ok {
-												if fa, ok := st2.Addr.(*ssa.FieldAddr); ok && fa.X == ssa.Value(ret) {
+												if fa, ok := st2.Addr.(*ssa.FieldAddr); ok && fieldBaseIs(fa, ret) {
 													stored = fieldName(fa.X.Type(), fa.Field)
 												}
 											}
@@ -243,7 +243,7 @@ func ruleBgCtx(c *Ctx, r *R, names ...string) {
 				if ct, ok := ref.(*ssa.ChangeType); ok && ct.Referrers() != nil {
 					for _, r2 := range *ct.Referrers() {
 						if st, ok := r2.(*ssa.Store); ok {
-							if fa, ok := st.Addr.(*ssa.FieldAddr); ok && fa.X == ssa.Value(ret) {
+							if fa, ok := st.Addr.(*ssa.FieldAddr); ok && fieldBaseIs(fa, ret) {
 								stored = fieldName(fa.X.Type(), fa.Field)
 							}
 						}
@@ -284,6 +284,30 @@ func ruleBgCtx(c *Ctx, r *R, names ...string) {
 			detail = "Close of the returned stream does not call " + stored + " before waiting"
 			if closeFn != nil {
 				var cancelIn, waitIn ssa.Instruction
+				// the cancel function and the WaitGroup grouped in a state type with a method of its own
+				// (iter.workers.stopAndWait()): cancel then wait, inside that method, called unconditionally by Close
+				for _, d := range deepInstrs(closeFn, 2) {
+					if d.in.Parent() == closeFn || len(d.calls) != 1 || d.site.Block() != closeFn.Blocks[0] {
+						continue
+					}
+					h := d.in.Parent()
+					var cIn, wIn ssa.Instruction
+					instrs(h, func(_ *ssa.BasicBlock, _ int, in ssa.Instruction) {
+						call, ok := in.(*ssa.Call)
+						if !ok {
+							return
+						}
+						if fieldOfChan(call.Call.Value) == stored {
+							cIn = in
+						}
+						if cal := staticCallee(&call.Call); cal != nil && fname(cal) == "Wait" && cal.Signature.Recv() != nil {
+							wIn = in
+						}
+					})
+					if cIn != nil && wIn != nil && cIn.Block() == h.Blocks[0] && cIn.Block().Dominates(wIn.Block()) && (cIn.Block() != wIn.Block() || idxIn(cIn) < idxIn(wIn)) {
+						okClose = true
+					}
+				}
 				instrs(closeFn, func(b *ssa.BasicBlock, i int, in ssa.Instruction) {
 					call, ok := in.(*ssa.Call)
 					if !ok {
@@ -868,6 +892,22 @@ func cancelsFirst(lit *ssa.Function, cancel ssa.Value) bool {
 				}
 			}
 		}
+	}
+	return false
+}
+
+// fieldBaseIs: the field address fa is a field of base, directly or through structs nested in it by value
+// (&out.workers.cancel).
+func fieldBaseIs(fa *ssa.FieldAddr, base ssa.Value) bool {
+	for d := 0; d < 4; d++ {
+		if fa.X == base {
+			return true
+		}
+		inner, ok := fa.X.(*ssa.FieldAddr)
+		if !ok {
+			return false
+		}
+		fa = inner
 	}
 	return false
 }
